@@ -399,6 +399,7 @@ BOUNDARY_EXPECT = [
     "B10.1 cap0_below_max=2 within_ok=1 len={max} cap={max} failed_at=-1 extra=panic:CapacityOverflow",
     "B10.2 cap0_below_max=7 within_ok=1 len={max} cap={max} failed_at=-1 extra=panic:CapacityOverflow",
     "B10.3 cap0_below_max={quarter} within_ok=1 len={max} cap={max} failed_at=-1 extra=panic:CapacityOverflow",
+    "B12 issued={max} duplicates=0 first=- own_entity=1",
     "B11 alloc=0",
 ]
 BOUNDARY_WHAT = {
@@ -412,6 +413,7 @@ BOUNDARY_WHAT = {
     "B10.1": "from an initial capacity of 2^24 - 2, create succeeds until 16,777,216 entities exist and only then panics",
     "B10.2": "from an initial capacity of 2^24 - 7, create succeeds until 16,777,216 entities exist and only then panics",
     "B10.3": "from an initial capacity of 3*2^22 + 1, create succeeds until 16,777,216 entities exist and only then panics",
+    "B12": "the 2^24 handles issued while one archetype grows from empty to the limit are pairwise distinct (sorted and compared), and handles from all parts of the range lead to their own entity",
     "B11": "after the whole boundary run (every world dropped, whatever panicked on the way) no array was resized or released with a layout that is not its own (layout-checking allocator of harness/alloc_check)",
 }
 
@@ -451,7 +453,7 @@ def run_boundary(cfgname):
                     res["oracle_hits"].append({"property": "C10", "seq": "boundary", "line": 0, "op": "rt boundary", "class": "boundary-B11",
                                                "what": f"{BOUNDARY_WHAT[tag]}: expected `{e}`, observed `{g}`; lines of the run: {[x for x in got if 'panic' in x][:4]}", "no_shrink": True})
                 if g != e and not res.get("crashed"):
-                    res["oracle_hits"].append({"property": "C08" if (tag in ("B5", "B8") and g and "dup_of_first=1" in g) else "C12", "seq": "boundary", "line": 0, "op": "rt boundary", "class": "boundary-" + tag,
+                    res["oracle_hits"].append({"property": "C08" if ((tag in ("B5", "B8") and g and "dup_of_first=1" in g) or tag == "B12") else "C12", "seq": "boundary", "line": 0, "op": "rt boundary", "class": "boundary-" + tag,
                                                "what": f"{BOUNDARY_WHAT[tag]}: expected `{e}`, observed `{g}`", "no_shrink": True})
             res["wall_s"] = round(time.time() - t0, 2)
         json.dump(res, open(jf, "w"))
